@@ -18,7 +18,9 @@ Sources == {"own", "same", "old", "foreign"}
 DataVals == Sources \cup {"tampered", "truncated", "empty", "nil"}
 KeyVals == Sources \cup {"tampered", "truncated", "empty", "nokey"}
 MetaVals == {"own", "old", "foreign", "missing", "zero", "nil", "garbage-id"}
-IkRow == {"intact", "key-tampered", "key-truncated", "nil-parent", "parent-missing", "deleted"}
+\* epoch-copy: the chain's intermediate key row is intact and ALSO filed under creation time 0 (record Created 0) - the row a key
+\* meta with Created = 0 names
+IkRow == {"intact", "key-tampered", "key-truncated", "nil-parent", "parent-missing", "deleted", "epoch-copy"}
 SkRow == {"intact", "key-tampered", "deleted"}
 
 Cases == [data : DataVals, key : KeyVals, meta : MetaVals, ik : IkRow, sk : SkRow]
@@ -31,8 +33,8 @@ Gen(s) == IF s = "old" THEN "old" ELSE IF s = "foreign" THEN "foreign" ELSE "own
 Decrypts(c) ==
   /\ c.data \in {"own", "same", "old"}
   /\ c.key = c.data
-  /\ c.meta = Gen(c.data)
-  /\ c.ik = "intact" /\ c.sk = "intact"
+  /\ (c.meta = Gen(c.data) \/ (c.meta = "zero" /\ c.ik = "epoch-copy"))
+  /\ c.ik \in {"intact", "epoch-copy"} /\ c.sk = "intact"
 
 Outcome(c) == IF Decrypts(c) THEN <<"ok", c.data>> ELSE <<"error">>
 
